@@ -18,6 +18,14 @@ func NewTableCell
   ensures result != nil && fresh(result) && isoNew(asnode(result)) && result.Alignment == AlignNone
   modifies nothing
 
+func NewTable
+  uses nodeModel
+  requires WF()
+  postupdates klen(p) = (p == asnode(result) ? 0 : klen(p))
+  ensures WF()
+  ensures result != nil && fresh(result) && isoNew(asnode(result))
+  modifies nothing
+
 func NewTableRow
   uses nodeModel
   requires WF()
@@ -25,6 +33,19 @@ func NewTableRow
   ensures WF()
   ensures result != nil && fresh(result) && isoNew(asnode(result)) && sameslice(result.Alignments, alignments)
   modifies nothing
+// NewTableHeader(row): a fresh header node that takes over all cells of row, in order (C17: the header has as many
+// cells as the row it was made from); no other child list changes
+func NewTableHeader
+  uses nodeModel
+  requires WF() && row != nil
+  callupdate ast.(*BaseNode).FirstChild#1: klen(p) = (p == asnode(n) ? 0 : klen(p))
+  ensures WF()
+  ensures [moved] result != nil && fresh(result) && par(asnode(result)) == nil && klen(asnode(result)) == old(klen(asnode(row))) && klen(asnode(row)) == 0
+  ensures [others] forall p addr {klen(p)} :: (p != asnode(result) && p != asnode(row)) ==> klen(p) == old(klen(p))
+  loop 0 inv WF() && n != nil && fresh(n) && par(asnode(n)) == nil && klen(asnode(n)) + klen(asnode(row)) == old(klen(asnode(row)))
+  loop 0 inv c == nil ? klen(asnode(row)) == 0 : (par(c) == asnode(row) && kidx(c) == 0)
+  loop 0 inv [others] forall p addr {klen(p)} :: (p != asnode(n) && p != asnode(row)) ==> klen(p) == old(klen(p))
+  loop 0 dec klen(asnode(row))
 // footnote nodes (C16)
 func NewFootnoteBacklink
   uses nodeModel
